@@ -193,9 +193,9 @@ def regFacCall (sh : Shape) (w : World) (rf : RegFac) (st : St) : St × Except E
 /-- `implConstructor.NewPlugin` -/
 def newPlugin (sh : Shape) (w : World) (conf : Option Nat) (st : St) : St × Except Err Product :=
   if sh.factory then
-    match factoryCtor sh w conf st with
-    | (st, .error e) => (st, .error e)
-    | (st, .ok rf) => regFacCall sh w rf st
+    match (factoryCtor sh w conf st).2 with
+    | .error e => ((factoryCtor sh w conf st).1, .error e)
+    | .ok rf => regFacCall sh w rf (factoryCtor sh w conf st).1
   else pluginCtor sh w conf st
 
 def toRes : Except Err Product → Res
@@ -204,9 +204,9 @@ def toRes : Except Err Product → Res
 
 /-- `Registry.New` -/
 def regNew (sh : Shape) (w : World) (st : St) : St × Res :=
-  match dcGet sh w st with
-  | (st, .error e) => (st, .err e)
-  | (st, .ok conf) => ((newPlugin sh w conf st).1, toRes (newPlugin sh w conf st).2)
+  match (dcGet sh w st).2 with
+  | .error e => ((dcGet sh w st).1, .err e)
+  | .ok conf => ((newPlugin sh w conf (dcGet sh w st).1).1, toRes (newPlugin sh w conf (dcGet sh w st).1).2)
 
 /-- what `NewFactory` hands out -/
 inductive Fac
@@ -233,22 +233,22 @@ def ctorNewFactory (sh : Shape) (w : World) (numOut : Nat) (needConf : Bool) (st
   else
     -- factoryConstructor.NewFactory
     let r : St × Except Err (Option Nat) := if needConf then dcGet sh w st else (st, .ok none)
-    match r with
-    | (st, .error e) => (st, .error e)
-    | (st, .ok conf) =>
-      match factoryCtor sh w conf st with
-      | (st, .error e) => (st, .error e)
-      | (st, .ok rf) =>
-        if sh.iface && (outLen sh.factErr == numOut) then (st, .ok (.directFactory rf))
-        else (st, .ok (.wrapFactory rf numOut))
+    match r.2 with
+    | .error e => (r.1, .error e)
+    | .ok conf =>
+      match (factoryCtor sh w conf r.1).2 with
+      | .error e => ((factoryCtor sh w conf r.1).1, .error e)
+      | .ok rf =>
+        if sh.iface && (outLen sh.factErr == numOut) then ((factoryCtor sh w conf r.1).1, .ok (.directFactory rf))
+        else ((factoryCtor sh w conf r.1).1, .ok (.wrapFactory rf numOut))
 
 /-- `Registry.NewFactory` -/
 def regNewFactory (sh : Shape) (w : World) (numOut : Nat) (st : St) : St × Except Err Fac :=
   if sh.cfg = .none then
     -- config not required: fillConf is only checked on an empty struct (exactly `Get` without a config)
-    match dcGet sh w st with
-    | (st, .error e) => (st, .error e)
-    | (st, .ok _) => ctorNewFactory sh w numOut false st
+    match (dcGet sh w st).2 with
+    | .error e => ((dcGet sh w st).1, .error e)
+    | .ok _ => ctorNewFactory sh w numOut false (dcGet sh w st).1
   else ctorNewFactory sh w numOut true st
 
 /-- one call of the factory handed out by `NewFactory` -/
@@ -259,10 +259,11 @@ def callFac (sh : Shape) (w : World) (fac : Fac) (st : St) : St × Res :=
       if sh.cfg = .none then
         ((pluginCtor sh w none st).1, convertOut numOut (outLen sh.ctorErr) (pluginCtor sh w none st).2)
       else
-        match dcGet sh w st with
-        | (st, .error e) => (st, if numOut = 1 then .panic e else .err e)
-        | (st, .ok conf) =>
-          ((pluginCtor sh w conf st).1, convertOut numOut (outLen sh.ctorErr) (pluginCtor sh w conf st).2)
+        match (dcGet sh w st).2 with
+        | .error e => ((dcGet sh w st).1, if numOut = 1 then .panic e else .err e)
+        | .ok conf =>
+          ((pluginCtor sh w conf (dcGet sh w st).1).1,
+           convertOut numOut (outLen sh.ctorErr) (pluginCtor sh w conf (dcGet sh w st).1).2)
   | .directFactory rf => ((regFacCall sh w rf st).1, toRes (regFacCall sh w rf st).2)
   | .wrapFactory rf numOut =>
       ((regFacCall sh w rf st).1, convertOut numOut (outLen sh.factErr) (regFacCall sh w rf st).2)
@@ -293,11 +294,12 @@ def runSt (inp : Input) : Option (St × List Step) :=
   match inp.form with
   | .component => some (iter (step (regNew inp.sh inp.w)) inp.k (initSt inp.sh inp.w))
   | form =>
-    match regNewFactory inp.sh inp.w form.numOut (initSt inp.sh inp.w) with
-    | (st, .error e) => some (st, [⟨st.log.reverse, .err e⟩])
-    | (st, .ok fac) =>
-      let r := iter (step (callFac inp.sh inp.w fac)) inp.k st
-      some (r.1, ⟨st.log.reverse, .made⟩ :: r.2)
+    let c := regNewFactory inp.sh inp.w form.numOut (initSt inp.sh inp.w)
+    match c.2 with
+    | .error e => some (c.1, [⟨c.1.log.reverse, .err e⟩])
+    | .ok fac =>
+      let r := iter (step (callFac inp.sh inp.w fac)) inp.k c.1
+      some (r.1, ⟨c.1.log.reverse, .made⟩ :: r.2)
 
 /-- the observation: steps, and at the very end what every pointer-holding product reads in `Conf.Mark` -/
 structure Obs where
